@@ -26,6 +26,14 @@ def known_string(rng, langs, countries):
     cn, cc = rng.choice(countries)
     lang = lc if rng.chance(1, 2) else ln
     ctry = cc if rng.chance(1, 2) else cn
+    if rng.chance(1, 12):
+        # the longest names of both tables together (each part has its own 63-byte limit; their sum may exceed it), and the
+        # first and last rows of both tables
+        longl = sorted(langs, key=lambda r: -len(r[0]))[:4] + [langs[0], langs[-1]]
+        longc = sorted(countries, key=lambda r: -len(r[0]))[:4] + [countries[0], countries[-1]]
+        (ln, lc), (cn, cc) = rng.choice(longl), rng.choice(longc)
+        lang = ln if rng.chance(2, 3) else lc
+        ctry = cn if rng.chance(2, 3) else cc
     suffix = rng.choice([[], b(".UTF-8"), b(".1252"), b("."), b(".a.b")])
     return lang + [95] + ctry + suffix
 
